@@ -36,6 +36,7 @@ Lemma adjust_fitness_ok o h s h1 s1 :
 Proof.
   unfold adjust_fitness. intros H. cbv zeta in H. rbind H as orgs G.
   destruct (sort_desc org_lt _) as [|top rest] eqn:S; [discriminate|].
+  destruct (Z.ltb (f_trunc_Z _) 0); [discriminate|].
   cbn [mark_elim] in H.
   match type of H with context [hsets h ?m] => set (M := m) in H end.
   assert (Pm : Permutation (map kv M) (map kv orgs)).
